@@ -4,6 +4,8 @@ a  packed layout: table builders, pack, decode, fill, encode agree; fields disjo
 b  race freedom of every njit(parallel=True) function (effect rule on prange bodies) - holds for every schedule
 c  each kernel / list operation computes the mathematical result: interpreted on generic symbolic coefficient arrays at
    low degree under an adversarial thread-id assignment and compared with sympy polynomial arithmetic
+
+a (added)  every fixed-width integer type that carries slot numbers / packed indices can hold the largest value at the table degree
 """
 from __future__ import annotations
 
